@@ -504,6 +504,13 @@ func c13Quantile(c *Ctx, a *sketchAnchors) {
 			c.R.check(ok, rule, fmt.Sprintf("%s/path%d[%s]/propagates", shortFn(fb), i, pathSig(p)), shortFn(fb), c.fpos(fb),
 				"an error of the per-quantile query is returned", describeRet(p))
 		}
+		if npaths == 0 && n.t == "plain" {
+			// the plain batch query no longer calls the single query: it refuses exactly what the single query refuses
+			// iff it is path-equivalent to it (C12-D4)
+			okEq, why := batchEquivalent(c, a)
+			c.R.check(okEq, rule, shortFn(fb)+"/equivalent-to-single-query", shortFn(fb), c.fpos(fb), "every element and every error return of the batch query corresponds to a path of GetValueAtQuantile with the same decisions", why)
+			continue
+		}
 		c.R.floor(rule, n.t+" batch quantile paths with inner query", npaths, 2)
 	}
 }
